@@ -303,6 +303,9 @@ func runAliasScenarios(rng *rand.Rand, n int, st *c06Stats, fail func(prop, mon,
 					if j != who && (len(now.entries) != len(snaps[j].entries) || !eqStrings(now.values, snaps[j].values) || len(listing) != len(snaps[j].entries)) {
 						fail("C05", "other-logs-untouched", "C05:other-log-changed", fmt.Sprintf("an append on log %d changed log %d built from the same entry map", who, j), caseInfo)
 					}
+					if want := unreferenced(listing); !eqStrings(sortedCopy(hashesOf(l.Heads().Slice())), want) {
+						fail("C02", "heads-exact", "C02:heads-not-unreferenced", fmt.Sprintf("log %d built from a shared entry map: heads are not its unreferenced entries after an append on log %d", j, who), caseInfo)
+					}
 					if len(now.values) != len(now.entries) || len(listing) != k+own[j] {
 						fail("C03", "values-complete", "C03:incomplete", fmt.Sprintf("log %d: %d entries listed, %d in Values(), expected %d", j, len(listing), len(now.values), k+own[j]), caseInfo)
 					}
@@ -374,6 +377,14 @@ func runPartialJoinScenarios(rng *rand.Rand, n int, st *c06Stats, fail func(prop
 		older, err := ipfslog.NewLog(w.api, w.idents["C"], &ipfslog.LogOptions{ID: "L", Entries: writer.GetEntries(), Heads: []iface.IPFSLogEntry{chain[cut]}})
 		if err != nil {
 			panic(err)
+		}
+		// what a log opened at an earlier head publishes loads to ITS state (its heads, not the newest cached entry)
+		if mh, err := older.ToMultihash(ctx); err == nil {
+			if re, err := ipfslog.NewFromMultihash(ctx, w.api, w.idents["D"], mh, &ipfslog.LogOptions{ID: "L"}, &ipfslog.FetchOptions{}); err != nil {
+				fail("C17", "manifest-loads", "C17:manifest-does-not-load", err.Error(), map[string]interface{}{"scenario": "manifest of a log opened at an earlier head", "head_index": cut})
+			} else if got, want := hashesOf(re.Values().Slice()), hashesOf(older.Values().Slice()); !eqStrings(got, want) {
+				fail("C17", "manifest-loads-state", "C17:manifest-loads-other-state", fmt.Sprintf("the manifest published by a log opened at entry %d of %d loads %d values, the log has %d", cut, k, len(got), len(want)), map[string]interface{}{"scenario": "manifest of a log opened at an earlier head", "head_index": cut})
+			}
 		}
 		fresh, _ := ipfslog.NewLog(w.api, w.idents["D"], &ipfslog.LogOptions{ID: "L"})
 		st.aliasRuns++
